@@ -980,7 +980,8 @@ func codecStream(cfg *Config) *hx.Stats {
 		"enc:map-root", "enc:map-next", "enc:map-last", "enc:map-group", "enc:map-inline-group", "enc:map-external-ref", "enc:map-single-elements",
 		"enc:mmeta-root", "enc:mmeta-nonroot", "v0map:ok",
 		"enc:has-inlined", "enc:inlined-array", "enc:inlined-map", "enc:compact", "enc:typeinfo-ref", "enc:wrapper"} {
-		if st.Dist[tag] == 0 && st.HarnessErr == "" {
+		// (a run cut short by violations is judged by those, not by its coverage)
+		if st.Dist[tag] == 0 && st.HarnessErr == "" && len(st.Violations) == 0 {
 			st.HarnessErr = "codec stream never produced " + tag
 		}
 	}
